@@ -837,7 +837,7 @@ func driveCoreLeaks(t *testing.T, w *CaseWriter, rng *Rng) {
 		n = 5000
 	}
 	// executions through random stacks (timeouts, cancellations, rejections), then a virtual hour
-	pf := execProfile{name: "C19", kinds: allKinds, maxDepth: 5, extPct: 25, coopPct: 40, maxReqs: 3}
+	pf := execProfile{name: "C19", kinds: allKinds, maxDepth: 5, extPct: 25, coopPct: 40, maxReqs: 3, hedgePct: 20}
 	for i := 0; i < n; i++ {
 		inst, reqs := genExecHistory(rng, pf)
 		if !boundedScript(reqs) {
